@@ -91,12 +91,13 @@ func (ns *normState) fileSrc(name string) ([]byte, error) {
 }
 
 type calleeInfo struct {
-	decl *ast.FuncDecl
-	obj  *types.Func // nil for a function literal bound to a local variable
-	sig  *types.Signature
-	file *ast.File
-	pkg  *packages.Package
-	key  string
+	decl     *ast.FuncDecl
+	obj      *types.Func // nil for a function literal bound to a local variable
+	sig      *types.Signature
+	file     *ast.File
+	pkg      *packages.Package
+	key      string
+	hasDefer bool // contains defer statements: only spliced in at a tail call (the defers then run at the same moment)
 	// function literal bound to a never-reassigned local that is only called (beta-reduction):
 	litVar   *types.Var
 	litDecl  ast.Stmt // the `var f T = func...` statement
@@ -128,7 +129,7 @@ func (ns *normState) round(p *Prog) (bool, error) {
 				if obj == nil || !eligibleCallee(pkg, fd, obj) {
 					continue
 				}
-				cands[obj] = &calleeInfo{decl: fd, obj: obj, sig: obj.Type().(*types.Signature), file: f, pkg: pkg, key: key}
+				cands[obj] = &calleeInfo{decl: fd, obj: obj, sig: obj.Type().(*types.Signature), file: f, pkg: pkg, key: key, hasDefer: containsDefer(fd.Body)}
 			}
 		}
 		// total references to each candidate (to know when a helper became dead code)
@@ -214,8 +215,10 @@ func eligibleCallee(pkg *packages.Package, fd *ast.FuncDecl, obj *types.Func) bo
 	nStmts := 0
 	ast.Inspect(fd.Body, func(n ast.Node) bool {
 		switch x := n.(type) {
-		case *ast.DeferStmt, *ast.LabeledStmt, *ast.GoStmt:
+		case *ast.LabeledStmt, *ast.GoStmt:
 			ok = false
+		case *ast.DeferStmt:
+			// allowed; the call site must then be a tail call (see handle)
 		case *ast.BranchStmt:
 			if x.Tok == token.GOTO || x.Label != nil {
 				ok = false
@@ -303,6 +306,7 @@ func (ns *normState) collect(p *Prog, pkg *packages.Package, f *ast.File, src []
 
 	var visitList func(list []ast.Stmt, enclosing *ast.FuncType)
 	var visitNode func(n ast.Node, enclosing *ast.FuncType)
+	tailStmt := map[ast.Stmt]bool{} // last statement of a function body
 
 	handle := func(st ast.Stmt, enclosing *ast.FuncType) bool {
 		// returns true if the statement was rewritten
@@ -356,6 +360,16 @@ func (ns *normState) collect(p *Prog, pkg *packages.Package, f *ast.File, src []
 		ci, recvExpr := resolve(call)
 		if ci == nil {
 			return false
+		}
+		if ci.hasDefer {
+			// the callee's defers run when IT returns; spliced into the caller they run when the caller returns:
+			// the same moment only if the call is the caller's last action, and only a plain call or `return f()`
+			if !tailStmt[st] || (kind != "expr" && kind != "return") {
+				return false
+			}
+			if kind == "expr" && enclosing.Results != nil && len(enclosing.Results.List) > 0 {
+				return false
+			}
 		}
 		// the callee must not be the function we are in (mutual recursion is cut by the round limit)
 		sig := ci.sig
@@ -571,6 +585,9 @@ func (ns *normState) collect(p *Prog, pkg *packages.Package, f *ast.File, src []
 			// function literals inside other statements
 			ast.Inspect(n, func(m ast.Node) bool {
 				if fl, ok := m.(*ast.FuncLit); ok {
+					if n := len(fl.Body.List); n > 0 {
+						tailStmt[fl.Body.List[n-1]] = true
+					}
 					visitList(fl.Body.List, fl.Type)
 					return false
 				}
@@ -582,6 +599,9 @@ func (ns *normState) collect(p *Prog, pkg *packages.Package, f *ast.File, src []
 		fd, ok := d.(*ast.FuncDecl)
 		if !ok || fd.Body == nil {
 			continue
+		}
+		if n := len(fd.Body.List); n > 0 {
+			tailStmt[fd.Body.List[n-1]] = true
 		}
 		visitList(fd.Body.List, fd.Type)
 	}
@@ -601,6 +621,21 @@ func (ns *normState) collect(p *Prog, pkg *packages.Package, f *ast.File, src []
 // variable is never assigned again and is used only as the callee of direct calls (and in `_ = f`).
 // Calling such a literal is replaced by its body like a call of a new helper (beta-reduction), so a
 // helper taking a callback — `rb.eachServer(func(s *rbServer) {...})` — normalises to a plain loop.
+// containsDefer: a defer statement of the function itself (not of a literal nested in it).
+func containsDefer(body *ast.BlockStmt) bool {
+	found := false
+	ast.Inspect(body, func(n ast.Node) bool {
+		switch n.(type) {
+		case *ast.FuncLit:
+			return false
+		case *ast.DeferStmt:
+			found = true
+		}
+		return !found
+	})
+	return found
+}
+
 func litCandidates(pkg *packages.Package, f *ast.File) map[*types.Var]*calleeInfo {
 	out := map[*types.Var]*calleeInfo{}
 	info := pkg.TypesInfo
@@ -648,7 +683,7 @@ func litCandidates(pkg *packages.Package, f *ast.File) map[*types.Var]*calleeInf
 					}
 				}
 			}
-			if eligibleCallee(pkg, ci.decl, nil) {
+			if eligibleCallee(pkg, ci.decl, nil) && !containsDefer(lit.Body) {
 				out[v] = ci
 			}
 		}
